@@ -9,7 +9,7 @@
    and g' that preserves labels and maps every parent list to a rearrangement of the image
    list - i.e. g' differs from g only in node identities, listing order and parent order. *)
 From Coq Require Import List String Bool Arith Permutation.
-From GolemV Require Import Graph.DescId Graph.DescIdProofs.
+From GolemV Require Import Graph.DescId Graph.DescIdProofs Graph.DescIdTree.
 Import ListNotations.
 Local Open Scope string_scope.
 
@@ -128,20 +128,32 @@ Theorem C13_dag_eq_iff_unfold_iso : forall g1 g2 r1 r2,
 Proof. exact dag_eq_iff_unfold_iso. Qed.
 Print Assumptions C13_dag_eq_iff_unfold_iso.
 
-(* FULL STATEMENT of the converse clause on the index representation (NOT proved):
+(* The converse clause at full strength, on the index representation with ARBITRARY node
+   numbering.  tree_shaped g: closed, acyclic, exactly one root, and no node occurs twice
+   among all parent links (so every non-root node has exactly one child).  For two such
+   graphs with delimiter-free labels:  ==  holds exactly when some bijection between their
+   node identities preserves labels and maps parent lists to rearrangements (iso).
+   (<-) is C13_graph_eq_iso; (->): the unfoldings of the roots are isomorphic trees
+   (C13_dag_eq_iff_unfold_iso); on a tree-shaped graph the unfolding, taken as a tree of node
+   indices, lists every node exactly once (C13_tree_shaped_unfolds_once); the tiso derivation
+   rearranges the children of the second index tree until both label trees are equal, and
+   matching the two index trees position by position gives the bijection. *)
+Theorem C13_tree_eq_iff_iso : forall g1 g2,
+  tree_shaped g1 -> tree_shaped g2 -> clean_labels g1 -> clean_labels g2 ->
+  (graph_eq g1 g2 = Some true <-> exists f, iso g1 g2 f).
+Proof. exact tree_eq_iff_iso. Qed.
+Print Assumptions C13_tree_eq_iff_iso.
 
-     [full statement]  C13_tree_eq_iff_iso : forall g1 g2,
-       tree_shaped g1 -> tree_shaped g2 -> clean_labels g1 -> clean_labels g2 ->
-       (graph_eq g1 g2 = Some true <-> exists f, iso g1 g2 f).
+(* the local description of a tree implies the global one: unfolding from the root visits
+   every node exactly once *)
+Theorem C13_tree_shaped_unfolds_once : forall g r,
+  wf g -> dag g -> sinks g = [r] -> NoDup (parents_all g) ->
+  exists k i, iunfold g k r = Some i /\ Permutation (inodes i) (seq 0 (List.length g)).
+Proof. intros g r W D S N. destruct (tree_shaped_at g r W D S N) as [_ [_ [_ H]]]. exact H. Qed.
+Print Assumptions C13_tree_shaped_unfolds_once.
 
-   with tree_shaped g := wf g /\ dag g /\ exactly one root /\ every node has at most one child.
-   Proved:  (<-) is C13_graph_eq_iso (any closed graph).  (->) is proved with the
-   isomorphism expressed on the trees: between the unfoldings of the roots
-   (C13_dag_eq_iff_unfold_iso above) and, when the two graphs are the graphs of rooted trees
-   t1, t2 (dg_of_tree: the construction the correspondence check uses for its tree pool),
-   between t1 and t2 themselves (C13_tree_eq_iff_iso_partial below).
-   Missing: turning a tiso derivation into an index bijection f for an arbitrary tree-shaped
-   g (every tree-shaped g is iso to dg_of_tree of its unfolding). *)
+(* the same statement for the graphs the correspondence check builds from rooted trees
+   (kept under its original name) *)
 Theorem C13_tree_eq_iff_iso_partial : forall t1 t2,
   names_ok_b t1 = true -> names_ok_b t2 = true ->
   (graph_eq (dg_of_tree t1) (dg_of_tree t2) = Some true <-> tiso t1 t2).
@@ -238,4 +250,47 @@ Proof.
     destruct v; discriminate.
   - intros nd Hin. simpl in Hin.
     repeat (destruct Hin as [Hin|Hin]; [subst; reflexivity|]). destruct Hin.
+Qed.
+
+(* non-vacuity of C13_tree_eq_iff_iso: one tree under two unrelated numberings (root at
+   index 2 resp. 0, parent links in different order), and the isomorphism it yields *)
+Definition ex_ta : dg :=
+  [mk_node "u0" "b" "" [3; 4]; mk_node "u1" "a" "" []; mk_node "u2" "a" "" [0; 1];
+   mk_node "u3" "a" "" []; mk_node "u4" "c" "" []].
+Definition ex_tb : dg :=
+  [mk_node "w0" "a" "" [4; 2]; mk_node "w1" "c" "" []; mk_node "w2" "b" "" [1; 3];
+   mk_node "w3" "a" "" []; mk_node "w4" "a" "" []].
+
+Lemma ex_shape (g : dg) (rank : nat -> nat) :
+  wf_b g = true ->
+  forallb (fun v => forallb (fun p => Nat.ltb (rank p) (rank v)) (par g v)) (seq 0 (List.length g)) = true ->
+  (exists r, sinks g = [r]) -> NoDup (parents_all g) -> tree_shaped g.
+Proof.
+  intros W R S N. split; [apply wf_b_spec; auto|]. split; [|split; auto].
+  exists rank. intros v nd p Hv Hp. rewrite forallb_forall in R.
+  assert (Hin : In v (seq 0 (List.length g))) by (apply in_seq; split; [auto with arith|]; apply nth_error_Some; congruence).
+  apply R in Hin. unfold par in Hin. rewrite Hv in Hin. rewrite forallb_forall in Hin.
+  apply Nat.ltb_lt. apply Hin. exact Hp.
+Qed.
+
+Example tree_shaped_hypotheses_satisfiable :
+  tree_shaped ex_ta /\ tree_shaped ex_tb /\ clean_labels ex_ta /\ clean_labels ex_tb /\
+  graph_eq ex_ta ex_tb = Some true /\ (exists f, iso ex_ta ex_tb f) /\
+  iso_b ex_ta ex_tb [2; 4; 0; 3; 1] = true.
+Proof.
+  assert (Ta : tree_shaped ex_ta).
+  { apply (ex_shape ex_ta (fun v => match v with 2 => 2 | 0 => 1 | _ => 0 end)); try reflexivity.
+    - exists 2. reflexivity.
+    - vm_compute. repeat constructor; simpl; intuition discriminate. }
+  assert (Tb : tree_shaped ex_tb).
+  { apply (ex_shape ex_tb (fun v => match v with 0 => 2 | 2 => 1 | _ => 0 end)); try reflexivity.
+    - exists 0. reflexivity.
+    - vm_compute. repeat constructor; simpl; intuition discriminate. }
+  assert (Ca : clean_labels ex_ta).
+  { intros nd Hin. simpl in Hin. repeat (destruct Hin as [Hin|Hin]; [subst; reflexivity|]). destruct Hin. }
+  assert (Cb : clean_labels ex_tb).
+  { intros nd Hin. simpl in Hin. repeat (destruct Hin as [Hin|Hin]; [subst; reflexivity|]). destruct Hin. }
+  split; [exact Ta|]. split; [exact Tb|]. split; [exact Ca|]. split; [exact Cb|].
+  split; [reflexivity|]. split; [|reflexivity].
+  apply (C13_tree_eq_iff_iso ex_ta ex_tb Ta Tb Ca Cb). reflexivity.
 Qed.
